@@ -117,8 +117,10 @@ fn rop_json(op: &ROp) -> Value {
     match op {
         ROp::Read(n) => json!({"op": "read", "n": n}),
         ROp::Start(k) => json!({"op": "start", "n": k}),
-        ROp::Cur(k) => json!({"op": "cur", "n": k}),
-        ROp::End(k) => json!({"op": "end", "n": k}),
+        // i64::MIN is logged as the most negative offset the validator's integers hold: from any position of these files both
+        // lead before the start, so the expected outcome (error, position kept) is the same
+        ROp::Cur(k) => json!({"op": "cur", "n": (*k).max(-2_147_483_647)}),
+        ROp::End(k) => json!({"op": "end", "n": (*k).max(-2_147_483_647)}),
     }
 }
 
@@ -412,8 +414,8 @@ fn rand_rop(rng: &mut StdRng, datalen: usize) -> ROp {
     match rng.gen_range(0..4) {
         0 => ROp::Read(if rng.gen_bool(0.1) { 64 } else { rng.gen_range(0..=datalen + 2) }),
         1 => ROp::Start(off(rng).unsigned_abs()),
-        2 => ROp::Cur(off(rng)),
-        _ => ROp::End(off(rng)),
+        2 => ROp::Cur(if rng.gen_bool(0.03) { i64::MIN } else { off(rng) }),
+        _ => ROp::End(if rng.gen_bool(0.03) { i64::MIN } else { off(rng) }),
     }
 }
 
